@@ -118,8 +118,11 @@ class staterror_builder:
                 if mask_this_sample.any():
                     if modname not in masks:
                         masks[modname] = mask_this_sample
-                    else:
-                        assert (mask_this_sample == masks[modname]).all()
+                    elif not (mask_this_sample == masks[modname]).all():
+                        raise InvalidModifier(
+                            f"The staterror modifier '{parname}' is used by samples that cover different channels."
+                            + " Use a unique staterror modifier name per channel."
+                        )
 
             # extract sigmas using this modifiers mask
             sigmas = relerrs[masks[modname]]
